@@ -20,19 +20,48 @@ import (
 // of a pattern-derived needle in the name (Contains, Cut, Index*, HasPrefix, Count) succeeds.
 // A `true` answer that is still possible is decided by an occurrence in the middle of the name:
 // `db.corp.example.attacker.test` would match `*.corp.example`.
-func (cx *c19Ctx) unanchoredAtom(m *ssa.Function) kit.AtomEval {
-	var namePar *ssa.Parameter
-	for _, q := range m.Params {
-		if kit.IsStringType(q.Type()) {
-			namePar = q
+func (cx *c19Ctx) unanchoredAtom(m *ssa.Function, cls map[*ssa.Parameter]string, depth int, busy map[*ssa.Function]bool) kit.AtomEval {
+	// parameter roles: in the predicate itself every string parameter is the requested name; in a
+	// helper the roles come from the arguments at the call being evaluated
+	if cls == nil {
+		cls = map[*ssa.Parameter]string{}
+		for _, q := range m.Params {
+			if kit.IsStringType(q.Type()) {
+				cls[q] = "name"
+			}
 		}
+	}
+	var patT types.Type
+	if sl, ok := cx.fDomains.Type().Underlying().(*types.Slice); ok {
+		patT = sl.Elem()
+	}
+	isPatternValue := func(x ssa.Value) bool {
+		if f, _ := kit.LoadedField(x); f == cx.fDomains {
+			return true
+		}
+		t := x.Type()
+		if pt, ok := t.(*types.Pointer); ok {
+			t = pt.Elem()
+		}
+		if patT != nil && types.Identical(t, patT) {
+			return true
+		}
+		if q, ok := x.(*ssa.Parameter); ok && cls[q] == "pattern" {
+			return true
+		}
+		return false
 	}
 	memoN, memoP := map[ssa.Value]bool{}, map[ssa.Value]bool{}
 	fromName := func(v ssa.Value) bool {
 		if r, ok := memoN[v]; ok {
 			return r
 		}
-		r := namePar != nil && kit.FlowSet(v, nil)[namePar]
+		r := false
+		for x := range kit.FlowSet(v, nil) {
+			if q, ok := x.(*ssa.Parameter); ok && cls[q] == "name" {
+				r = true
+			}
+		}
 		memoN[v] = r
 		return r
 	}
@@ -42,12 +71,43 @@ func (cx *c19Ctx) unanchoredAtom(m *ssa.Function) kit.AtomEval {
 		}
 		r := false
 		for x := range kit.FlowSet(v, nil) {
-			if f, _ := kit.LoadedField(x); f == cx.fDomains {
+			if isPatternValue(x) {
 				r = true
 			}
 		}
 		memoP[v] = r
 		return r
+	}
+	// a call of a bool helper of package exit: the same assignment, with the helper's parameters
+	// classified by what they are given here
+	helper := func(cond ssa.Value) (bool, bool) {
+		c, h := c19BoolHelper(cond)
+		if h == nil || depth >= 3 || busy[h] {
+			return false, false
+		}
+		hc := map[*ssa.Parameter]string{}
+		for i, q := range h.Params {
+			if i >= len(c.Call.Args) {
+				continue
+			}
+			a := c.Call.Args[i]
+			switch {
+			case fromPattern(a) && !fromName(a):
+				hc[q] = "pattern"
+			case fromName(a) && kit.IsStringType(q.Type()):
+				hc[q] = "name"
+			}
+		}
+		busy[h] = true
+		res := c19EvalBoolFunc(h, cx.unanchoredAtom(h, hc, depth+1, busy))
+		delete(busy, h)
+		switch res {
+		case kit.TriTrue:
+			return true, true
+		case kit.TriFalse:
+			return false, true
+		}
+		return false, false
 	}
 	lenOfName := func(v ssa.Value) bool {
 		for x := range kit.FlowSet(v, func(y ssa.Value) bool {
@@ -64,6 +124,9 @@ func (cx *c19Ctx) unanchoredAtom(m *ssa.Function) kit.AtomEval {
 		return c != nil && len(c.Call.Args) >= 2 && fromName(c.Call.Args[0]) && fromPattern(c.Call.Args[1])
 	}
 	return func(cond ssa.Value) (bool, bool) {
+		if v, ok := helper(cond); ok {
+			return v, true
+		}
 		switch x := cond.(type) {
 		case *ssa.BinOp:
 			if x.Op == token.EQL || x.Op == token.NEQ {
